@@ -58,6 +58,15 @@ const shardSize = 1500
 func (e *Env) judge(name string, obs []*Obs) ([]Failure, JudgeStats, error) {
 	var stats JudgeStats
 	stats.Records = len(obs)
+	if dump := os.Getenv("VERIF_DUMP"); dump != "" {
+		if f, err := os.Create(dump); err == nil {
+			enc := json.NewEncoder(f)
+			for _, o := range obs {
+				_ = enc.Encode(o)
+			}
+			f.Close()
+		}
+	}
 	if len(obs) == 0 {
 		return nil, stats, nil
 	}
